@@ -21,7 +21,7 @@ def load_props():
     import importlib.util
     s = importlib.util.spec_from_file_location('properties', os.path.join(VERIF, 'spec', 'properties.py'))
     m = importlib.util.module_from_spec(s); s.loader.exec_module(m)
-    return m.PROPS
+    return {k: v for k, v in m.PROPS.items() if re.match(r'^C\d\d$', k)}
 
 
 def labels_props(label):
